@@ -49,12 +49,16 @@ type Case struct {
 	AzForeign bool   `json:",omitempty"` // the authorization loaded (id from the request URL) is another identifier's: its own challenges are all pending
 	Mut       string `json:",omitempty"` // name of the mutation that produced the response (evidence only)
 
-	HTTP *HTTPW    `json:",omitempty"`
-	DNS  *DNSW     `json:",omitempty"`
-	TLS  *TLSW     `json:",omitempty"`
-	DA   *DAW      `json:",omitempty"`
-	Wire *WireW    `json:",omitempty"`
-	H    *HandlerW `json:",omitempty"` // op=handler
+	HTTP *HTTPW `json:",omitempty"`
+	DNS  *DNSW  `json:",omitempty"`
+	TLS  *TLSW  `json:",omitempty"`
+	DA   *DAW   `json:",omitempty"`
+	Wire *WireW `json:",omitempty"`
+	Conv *ConvW `json:",omitempty"` // op=conv
+	E2E  *E2EW  `json:",omitempty"` // op=e2e
+
+	fixedID bool      // identifier and token are given (e2e): the generators must not choose them
+	H       *HandlerW `json:",omitempty"` // op=handler
 
 	IDType string `json:",omitempty"` // op=types
 	Raw    string `json:",omitempty"`
@@ -62,10 +66,17 @@ type Case struct {
 }
 
 type HTTPW struct {
-	Err     string `json:",omitempty"` // error class returned by Get ("" = a response)
-	Status  int
-	Body    []byte
-	ReadErr bool `json:",omitempty"` // the body reader fails
+	Err       string `json:",omitempty"` // error class returned by Get ("" = a response)
+	Status    int
+	Body      []byte
+	ReadErr   bool `json:",omitempty"` // the body reader fails
+	Real      bool `json:",omitempty"` // fetched by the real acme.NewClient() from a loopback server
+	Redirects int  `json:",omitempty"` // Real: number of 302 hops before the answer
+	Refused   bool `json:",omitempty"` // Real: nobody listens on the port
+
+	obsOK, obsErr, obsReadErr bool // Real: what the client returned
+	obsStatus                 int
+	obsBody                   []byte
 }
 
 type DNSW struct {
@@ -278,6 +289,7 @@ func statusName(s acme.Status) string {
 // ---------- running the real code ----------
 
 func (k *Case) runValidate() (out string) {
+	k.prepareReal()
 	acme.StrictFQDN = k.Strict
 	acme.InsecurePortHTTP01 = k.PortH
 	acme.InsecurePortTLSALPN01 = k.PortT
@@ -482,6 +494,10 @@ func (k *Case) run() string {
 		return k.runValidate()
 	case "handler":
 		return k.runHandler()
+	case "conv":
+		return k.runConv()
+	case "e2e":
+		return k.runE2E()
 	case "types":
 		return k.runTypes()
 	case "rev":
@@ -531,7 +547,9 @@ func (k *Case) render() (string, bool) {
 		return fmt.Sprintf("op=types idt=%s raw=%s", k.IDType, c.X(k.Raw)) + tail, true
 	case "rev":
 		return "op=rev ip=" + c.XB(k.IP) + tail, true
-	case "validate", "handler":
+	case "conv":
+		return k.convLine() + tail, true
+	case "validate", "handler", "e2e":
 	default:
 		return "", false
 	}
@@ -551,6 +569,12 @@ func (k *Case) render() (string, bool) {
 	switch {
 	case k.HTTP != nil:
 		switch {
+		case k.HTTP.Real && k.HTTP.obsErr:
+			w = "w=err"
+		case k.HTTP.Real && k.HTTP.obsReadErr:
+			w = fmt.Sprintf("w=resp:%d:!", k.HTTP.obsStatus)
+		case k.HTTP.Real && k.HTTP.obsOK:
+			w = fmt.Sprintf("w=resp:%d:%s", k.HTTP.obsStatus, c.XB(k.HTTP.obsBody))
 		case k.HTTP.Err != "":
 			w = "w=err"
 		case k.HTTP.ReadErr:
@@ -584,6 +608,12 @@ func (k *Case) render() (string, bool) {
 	if k.Op == "handler" {
 		w += k.handlerFields()
 	}
+	if k.Op == "e2e" {
+		if k.H != nil {
+			w += k.handlerFields()
+		}
+		w += k.e2eFields()
+	}
 	return head + " " + w + tail, true
 }
 
@@ -591,7 +621,7 @@ func main() {
 	n := flag.Int("n", 2000, "number of generated cases")
 	out := flag.String("out", "", "output file (input<TAB>impl)")
 	replay := flag.String("replay", "", "file of model input lines (case=… field) to re-run instead of generating")
-	stage := flag.String("stage", "validators", "validators | handler")
+	stage := flag.String("stage", "validators", "validators | handler | e2e")
 	flag.Parse()
 	plantSystemRoot()
 	defer os.RemoveAll(sysRootDir)
@@ -600,6 +630,8 @@ func main() {
 	initAttest()
 	initWire()
 	defer closeWire()
+	initReal()
+	defer closeReal()
 	initHandler()
 	defer closeHandler()
 	o, err := c.NewOut(*out)
@@ -644,6 +676,18 @@ func main() {
 				}
 				emit(&k)
 			}
+		}
+		return
+	}
+	defer closeE2E()
+	if *stage == "e2e" && *replay == "" {
+		initE2E()
+		for _, k := range cornerE2E() {
+			emit(k)
+		}
+		r := c.NewRng(c.Seed()*0x2545F4914F6CDD1D ^ 0x27D4EB2F165667C5)
+		for i := 0; i < *n; i++ {
+			emit(genE2ECase(r.Fork()))
 		}
 		return
 	}
